@@ -283,7 +283,11 @@ func decorateForHelp(r *rand.Rand, t *Tree) {
 			}
 			o.Init = nil
 			if chance(r, 0.08) && o.Kind == "map" && o.VType == "string" {
-				o.Init = txts("kb:v2", "ka:v1", "kc:v3", "kd:v4")
+				if o.KType == "" {
+					o.Init = txts("kb:v2", "ka:v1", "kc:v3", "kd:v4")
+				} else {
+					o.Init = txts("9:v2", "10:v1", "100:v3", "2:v4") // shown ordered by the rendered key: 10, 100, 2, 9
+				}
 			}
 			if chance(r, 0.05) && o.Kind == "scalar" && o.VType == "string" && len(o.Choices) == 0 && !o.Validator {
 				o.Init = txts("preset" + itoa(markerN))
